@@ -324,8 +324,10 @@ func c05Corrupt(t *rapid.T, data []byte) string {
 	}
 	hostile := func(label string) uint32 {
 		return rapid.OneOf(
-			rapid.SampledFrom([]uint32{0, 1, 4, 31, 32, 0x800, 0x8e0, 0x3ff0, 0x3ffc, 0x4000, 0x4001, 0xFFFFFFF0, 0xFFFFFFFF, 0x80000000, 0x00FFFFFF, 0xFF000001}),
+			rapid.SampledFrom([]uint32{0, 1, 4, 31, 32, 0x800, 0x8e0, 0x3ff0, 0x3ffc, 0x4000, 0x4001, 0xFFFFFFF0, 0xFFFFFFFF, 0x80000000, 0x00FFFFFF, 0xFF000001,
+				0xFFFFC000, 0xFFFFC020, 0xFFFFBFE0, 0xFFFFFFE0, 0xFFFFFFC0, 0x7FFFFFE0, 0x7FFFC020}),
 			rapid.Uint32Range(0, uint32(len(data))+64),
+			rapid.Uint32Range(0xFFFF0000, 0xFFFFFFFF), // where 32-bit offset arithmetic wraps around
 		).Draw(t, label)
 	}
 	recOff := func(label string) uint32 {
@@ -479,6 +481,7 @@ func TestVerifC05Corrupt(t *testing.T) {
 		begun := map[string]uint64{}
 		ctl := vhook.New()
 		ctl.TickBudget = int64(64*(len(data)/16+1024)) * int64(nops+2)
+		ctl.CallBudget = 200 * (nops + 2) // opening takes about 15 intercepted calls, an Add at most 10 re-mappings of 5 calls each
 		pv, stack := ctl.Direct(func() {
 			f2.rotate1()
 			for _, a := range adds {
@@ -499,7 +502,7 @@ func TestVerifC05Corrupt(t *testing.T) {
 		if pv != nil {
 			what := "panic"
 			if _, ok := pv.(vhook.BudgetExceeded); ok {
-				what = "unbounded loop (tick budget exceeded)"
+				what = "unbounded loop (step or system-call budget exceeded)"
 			}
 			t.Fatalf("%s: %s while using a counter file damaged at rest: %v\n%s", desc, what, pv, stack)
 		}
@@ -536,4 +539,53 @@ func TestVerifC05Corrupt(t *testing.T) {
 		vstats.Case(desc+fmt.Sprintf(" opened=%v adds=%v", opened, ks), opened && !wellFormedAfter, "damage:"+kind, fmt.Sprintf("opened:%v", opened), fmt.Sprintf("stillWellFormed:%v", wellFormedAfter))
 		vstats.NoteMax("max_ticks_per_case", ctl.Ticks)
 	})
+}
+
+// TestVerifC05LimitWrap is the fixed regression case for a defect found in this
+// class: an allocation limit damaged into the top 16 KiB of the 32-bit range
+// made mappedFile.newCounter spin forever (the page rounding in extend wraps to 0).
+func TestVerifC05LimitWrap(t *testing.T) {
+	defer vstats.Flush()
+	base := t.TempDir()
+	for i, limit := range []uint32{0xFFFFC020, 0xFFFFC001, 0xFFFFFFC0, 0xFFFFFFE0, 0xFFFFFFF0, 0xFFFFBFE0} {
+		env := c03Setup(base, 1000+i, true)
+		f1, f2 := &file{}, &file{}
+		now := time.Date(2024, 3, 4, 12, 0, 0, 0, time.UTC)
+		CounterTime = func() time.Time { return now }
+		f1.rotate1()
+		m := f1.current.Load()
+		if m == nil {
+			t.Fatalf("harness: open failed: %v", f1.err)
+		}
+		path := m.f.Name()
+		(&Counter{name: "old", file: f1}).Add(5)
+		m = f1.current.Load()
+		hdrLen := m.hdrLen
+		m.close()
+		f1.current.Store(nil)
+		data, err := os.ReadFile(path)
+		if err != nil {
+			t.Fatal(err)
+		}
+		binary.LittleEndian.PutUint32(data[hdrLen:], limit)
+		if err := os.WriteFile(path, data, 0666); err != nil {
+			t.Fatal(err)
+		}
+		ctl := vhook.New()
+		ctl.TickBudget = 200000
+		ctl.CallBudget = 400
+		pv, stack := ctl.Direct(func() {
+			f2.rotate1()
+			(&Counter{name: "fresh", file: f2}).Add(1)
+		})
+		env.teardown(f1, f2)
+		vstats.Case(fmt.Sprintf("limit=%#x", limit), true, "regress-limit-wrap")
+		if pv != nil {
+			what := "panic"
+			if _, ok := pv.(vhook.BudgetExceeded); ok {
+				what = "unbounded loop (step or system-call budget exceeded)"
+			}
+			t.Fatalf("allocation limit damaged to %#x: %s while adding a new counter: %v\n%s", limit, what, pv, stack)
+		}
+	}
 }
